@@ -98,9 +98,9 @@ def mc_configs(pid, tier):
                                MaxCtl=5)),
         ]
         if not q:
-            cfgs.append(("mc_clock_t1", sr(Tick=1, Duration=100, Waits={1, 2, 3}, MaxPat=2, Outs={"Never", "Ok"},
-                                           TWaits={2, 7}, TOuts={"none", "Never"}, MaxNodes=2,
-                                           CtlOps={"register", "step", "run", "crash", "bounce"}, MaxCtl=6)))
+            cfgs.append(("mc_clock_t1", sr(Tick=1, Duration=100, Waits={1, 3}, MaxPat=2, Outs={"Never", "Ok"},
+                                           TWaits={2}, TOuts={"none", "Never"}, MaxNodes=2,
+                                           CtlOps={"register", "step", "run", "crash", "bounce"}, MaxCtl=5)))
             cfgs.append(("mc_clock_t3_3nodes", sr(Tick=3, Duration=100, Waits={2, 7}, MaxPat=1, Outs={"Never"}, MaxNodes=3,
                                                   TOuts={"none"}, RandomOrder=True,
                                                   CtlOps={"register", "step", "crash", "bounce"}, MaxCtl=6)))
@@ -108,7 +108,7 @@ def mc_configs(pid, tier):
     if pid == "C04":
         cfgs = [
             # listener crashed / bounced in every TCP phase (listening, queued SYN, idle, unread data, blocked peer)
-            ("mc_crash_listener", sc(Ops=TCP, Targets={1}, Lis=1, MaxOps=5 if q else 6, MaxFaults=1 if q else 2,
+            ("mc_crash_listener", sc(Ops=TCP, Targets={1}, Lis=1, MaxOps=5, MaxFaults=1 if q else 2,
                                      MaxSteps=5 if q else 6)),
             # connector crashed (mid-connect, established, with pending reads / writes)
             ("mc_crash_connector", sc(Ops=TCP, Targets={2}, Lis=1, MaxOps=5, MaxFaults=1, MaxSteps=5)),
